@@ -1,11 +1,15 @@
 #!/usr/bin/env bash
-# selftest/seeded.sh <Cxx> [tier]: copies /tmp/mut-<Cxx>/SEEDED (a sub-agent's seeded defect) to
-# /verif/seeded/<Cxx>/ if not there yet, then runs the property's check against a scratch
-# worktree with the patch applied and reports caught / missed.
+# selftest/seeded.sh <id> [tier]: <id> = Cxx (round 1, /tmp/mut-Cxx) or Cxx.r2 (round 2, /tmp/mut2-Cxx).
+# Copies the sub-agent's SEEDED directory to /verif/seeded/<id>/ if it is not there yet, then runs the
+# property's check against a scratch worktree with the patch applied and reports caught / missed.
 set -u
 cd "$(dirname "${BASH_SOURCE[0]}")/.."
-id="$1"; tier="${2:-quick}"; prop="${3:-$id}"
-src="/tmp/mut-$id/SEEDED"
+id="$1"; tier="${2:-quick}"
+prop="${id%%.*}"
+case "$id" in
+  *.r2) src="/tmp/mut2-$prop/SEEDED" ;;
+  *)    src="/tmp/mut-$prop/SEEDED" ;;
+esac
 dst="seeded/$id"
 if [ ! -f "$dst/patch.diff" ]; then
   [ -f "$src/patch.diff" ] || { echo "no patch for $id"; exit 2; }
